@@ -1867,6 +1867,23 @@ where
                             if ann.node == *remote {
                                 continue;
                             }
+                            // Don't send refs announcements of repositories the remote isn't
+                            // allowed to know about. Nb. if we don't have the repository, we
+                            // can't determine whether it's private or public.
+                            if let AnnouncementMessage::Refs(RefsAnnouncement { rid, .. }) =
+                                ann.message
+                            {
+                                match self.storage.get(rid) {
+                                    Ok(Some(doc)) if !doc.is_visible_to(&(*remote).into()) => {
+                                        continue;
+                                    }
+                                    Ok(_) => {}
+                                    Err(e) => {
+                                        error!(target: "service", "Error loading identity document of {rid}: {e}");
+                                        continue;
+                                    }
+                                }
+                            }
                             // Only send messages if we're a relay, or it's our own messages.
                             if relay || ann.node == local {
                                 self.outbox.write(peer, ann.into());
